@@ -11,7 +11,7 @@ Open Scope N_scope.
 
 Definition msg_ext (a b : list (nat * pmsg)) : Prop :=
   forall mid m, lookup mid a = Some m ->
-    exists m', lookup mid b = Some m' /\ pm_reqs m' = pm_reqs m /\ pm_client m' = pm_client m /\ pm_seq m' = pm_seq m.
+    exists m', lookup mid b = Some m' /\ pm_reqs m' = pm_reqs m /\ pm_client m' = pm_client m /\ pm_seq m' = pm_seq m /\ pm_route m' = pm_route m.
 
 Definition bounded (st : pst) : Prop := forall mid m, lookup mid (msgs st) = Some m -> (mid < next_mid st)%nat.
 
@@ -34,7 +34,7 @@ Lemma msg_ext_refl a : msg_ext a a.
 Proof. intros mid m H. exists m. auto. Qed.
 Lemma msg_ext_trans a b c : msg_ext a b -> msg_ext b c -> msg_ext a c.
 Proof.
-  intros H1 H2 mid m H. destruct (H1 _ _ H) as (m1 & A & B & C & D). destruct (H2 _ _ A) as (m2 & A2 & B2 & C2 & D2).
+  intros H1 H2 mid m H. destruct (H1 _ _ H) as (m1 & A & B & C & D & E). destruct (H2 _ _ A) as (m2 & A2 & B2 & C2 & D2 & E2).
   exists m2. repeat split; congruence.
 Qed.
 Lemma wext_refl st : wext st st.
@@ -58,10 +58,10 @@ Lemma wext_set_pools st x : wext st (set_pools st x). Proof. apply wext_same_msg
 
 (* updating an existing request without touching owner, position or per-slot requests *)
 Lemma wext_set_msg_same st mid m m' :
-  lookup mid (msgs st) = Some m -> pm_reqs m' = pm_reqs m -> pm_client m' = pm_client m -> pm_seq m' = pm_seq m ->
+  lookup mid (msgs st) = Some m -> pm_reqs m' = pm_reqs m -> pm_client m' = pm_client m -> pm_seq m' = pm_seq m -> pm_route m' = pm_route m ->
   wext st (set_msg st mid m').
 Proof.
-  intros Hl A B C Hb. split; [reflexivity|]. split.
+  intros Hl A B C D Hb. split; [reflexivity|]. split.
   - intros x mx Hx. cbn [set_msg msgs]. rewrite lookup_update. destruct (Nat.eqb_spec x mid) as [->|].
     + exists m'. rewrite Hl in Hx. inversion Hx; subst. auto.
     + exists mx. auto.
@@ -434,7 +434,7 @@ Qed.
 
 Theorem step_winv st e st' : WInv st -> step st e = ROk st' -> WInv st'.
 Proof.
-  intros H. destruct e as [c adm|c b totals|order|s b|c|s| |s]; cbn [step].
+  intros H. destruct e as [c adm|c b totals|order|s b|c|s| |s|nodes newslots]; cbn [step].
   - destruct (lookup c (clients st)); intro E; apply ROk_inj in E; subst st'; exact H.
   - intro E; apply ROk_inj in E; subst st'. apply ensure_dials_winv. unfold client_data.
     destruct (lookup c (clients st)) as [cl|]; [|exact H].
@@ -446,7 +446,9 @@ Proof.
   - intro E; apply ROk_inj in E; subst st'. apply (run_task_winv st (fun _ => []) (TClose s)), H.
   - intro E; apply ROk_inj in E; subst st'. unfold timeout_scan.
     eapply WInv_wext; [eapply wext_trans; [apply wext_expire | apply wext_set_inflight] | exact H].
-  - intro E; apply ROk_inj in E; subst st'. exact H.
+  - destruct (find_pool st s) as [p|]; [|intro E; apply ROk_inj in E; subst st'; exact H].
+    destruct (pool_get st p) as [st1 [s1|]] eqn:Eg; destruct (pool_get_winv _ _ _ _ H Eg) as (A & _); intro E; apply ROk_inj in E; subst st'; exact A.
+  - intro E; apply ROk_inj in E; subst st'. eapply WInv_wext; [apply wext_same_msgs; reflexivity | exact H].
 Qed.
 
 Theorem run_winv evs : forall st st', WInv st -> run st evs = ROk st' -> WInv st'.
